@@ -2032,7 +2032,8 @@ func (s *sq) forLoop(x *ast.ForStmt, rest []ast.Stmt, defers []string) string {
 			params = append(params, o)
 		}
 	}
-	sort.Slice(params, func(i, j int) bool { return s.names[params[i]] < s.names[params[j]] })
+	// in declaration order (receiver, parameters, locals): renaming a variable does not reorder them
+	sort.Slice(params, func(i, j int) bool { return params[i].Pos() < params[j].Pos() })
 	ctx := &loopCtx{name: fmt.Sprintf("%s_loop%d", s.lean, len(s.aux)+len(s.loops)+1), params: params, post: x.Post, exit: rest, defers: defers}
 	// the same loop reached through a duplicated continuation (same variables, same deferred calls, same enclosing
 	// loops, same statements after it) is the same definition
